@@ -272,7 +272,12 @@ class World:
             if op["how"] == "add":
                 f = lambda: o.s.add(val)                          # noqa: E731
             elif op["how"] == "update":
-                f = lambda: o.s.update(list(op["vs"]))            # noqa: E731
+                vs = list(op["vs"])
+                if op.get("split") and len(vs) >= 2:
+                    # several iterables in one call: still one all-or-nothing operation
+                    f = lambda: o.s.update(vs[:1], vs[1:])        # noqa: E731
+                else:
+                    f = lambda: o.s.update(vs)                    # noqa: E731
             else:
                 f = lambda: o.s.symmetric_difference_update(list(op["vs"]))   # noqa: E731
         elif k == "tl":
@@ -510,9 +515,10 @@ class Prop:
                 op["v"] = item()
                 op["pairs"] = [[r.choice(["a", "b", "c"]), item()] for _ in range(r.randint(1, 3))]
             elif k == "s":
-                op["how"] = r.choice(["add", "update", "symdiff"])
+                op["how"] = r.choice(["add", "update", "update", "symdiff"])
                 op["v"] = item()
                 op["vs"] = [item() for _ in range(r.randint(1, 3))]
+                op["split"] = r.random() < 0.5
             elif k == "set_sup":
                 op["v"] = fresh() if r.random() < 0.85 else None
             elif k == "set_child":
